@@ -101,7 +101,7 @@ class FuncInfo:
 
 def walk_local(fnode):
     """Walk a function body without descending into nested function/class defs."""
-    stack = list(fnode.body) if hasattr(fnode, "body") else [fnode]
+    stack = [c for c in fnode.body if not isinstance(c, (ast.FunctionDef, ast.AsyncFunctionDef, ast.ClassDef))] if hasattr(fnode, "body") else [fnode]
     while stack:
         n = stack.pop()
         yield n
